@@ -273,6 +273,12 @@ def _run_net(ctx: Ctx):
                         if any(t.startswith(f"hop:{sp}:") for t in toks):
                             ctx.count(f"net-ping-through-{case['nodes'][sp]['kind']}:{a.split()[0]}")
                 ctx.count("net-events", len(toks))
+            if op["op"] == "inject":  # family inject_low_ttl: did the router's process_frame / route_frame send, drop at the TTL test, or drop before
+                toks = a.split()[1:]
+                hops = [j for j, t in enumerate(toks) if t.startswith("hop:")]
+                fate = "no-hop" if not hops else ("sent" if any(t.startswith("rx:") for t in toks[hops[0] + 1:]) else "hop-then-nothing")
+                ctx.count(f"net-inject:ttl{op['ttl']}:{fate}")
+                nontrivial = nontrivial or bool(hops)
             if "OOF" in a.split():
                 ctx.count("net-model-out-of-fuel")
         ctx.case(["net", case], nontrivial)
